@@ -10,6 +10,7 @@ import os
 import re
 
 from .. import facts, expr as X, paths, nullness, flow
+from ..facts import walk
 from ..report import Check
 from ..facts import AnalysisBroken, REPO
 
@@ -248,25 +249,77 @@ def check_msgs(chk, prog):
         raise AnalysisBroken("file-static `silent` not found in msgs.c")
     n_sites = 0
     primitives = 0
+
+    def silent_copies(fn):
+        """locals that only ever hold a copy of `silent` (quiet = silent;)"""
+        res, other = set(), set()
+        for x in walk(fn.body):
+            pairs = []
+            if x.get("k") == "assign" and x.get("op") == "=":
+                l = X.strip(x["ch"][0])
+                if l.get("k") == "ref" and l.get("rk") == "local":
+                    pairs.append((l["d"], x["ch"][1]))
+            elif x.get("k") == "assign":
+                l = X.strip(x["ch"][0])
+                if l.get("k") == "ref" and l.get("rk") == "local":
+                    other.add(l["d"])
+            if x.get("k") == "decl":
+                for dcl in x.get("decls", ()):
+                    if dcl.get("init") is not None:
+                        pairs.append((dcl["d"], dcl["init"]))
+            for d_, r_ in pairs:
+                if X.apath(r_) == silent:
+                    res.add(d_)
+                else:
+                    other.add(d_)
+        return {"d%d" % d_ for d_ in res - other}
+
+    def gated_calls(fn, wanted):
+        """[(call node, gated?)] for the calls of fn whose callee is in `wanted`"""
+        hits = []
+        copies = silent_copies(fn)
+
+        def visit(state, n, blk):
+            if n.get("k") == "call" and X.callee_name(n) in wanted:
+                hits.append((n, ("false", silent) in state or any(("false", c_) in state for c_ in copies)))
+        nullness.prepared_cfg(fn, ())
+        flow.forward(fn.cfg, frozenset(), nullness.transfer, refine=nullness.refine, visit=visit)
+        return hits
+
+    def helper_ok(fn, depth=0):
+        """a static helper that prints is fine when every call of it inside msgs.c is gated (or sits in such a helper)"""
+        if not fn.static or depth > 2:
+            return False, ""
+        sites = []
+        for g in u.functions.values():
+            if g is fn or g.cfg is None:
+                continue
+            sites += [(g, n, ok) for n, ok in gated_calls(g, {fn.name})]
+        if not sites:
+            return False, ""
+        for g, n, ok in sites:
+            if not ok and not helper_ok(g, depth + 1)[0]:
+                return False, ""
+        return True, "every call of the helper %s is gated by !silent" % fn.name
     for fn in u.functions.values():
         cfg = fn.cfg
         if cfg is None:
             continue
-        hits = []
-
-        def visit(state, n, blk):
-            if n.get("k") == "call" and X.callee_name(n) in OUTPUT_CALLS:
-                hits.append((n, ("false", silent) in state))
-        nullness.prepared_cfg(fn, ())
-        flow.forward(cfg, frozenset(), nullness.transfer, refine=nullness.refine, visit=visit)
+        hits = gated_calls(fn, OUTPUT_CALLS)
         if hits:
             primitives += 1
+        hok, hwhy = (None, "")
         for n, ok in hits:
             n_sites += 1
+            why = "dominated by a branch establishing !silent"
+            if not ok:
+                if hok is None:
+                    hok, hwhy = helper_ok(fn)
+                ok, why = hok, hwhy or why
             chk.ob("S1", fn.name, "silent-gate:%s" % X.callee_name(n), ok, loc=fn.loc(n),
                    detail="%s calls %s on a path where `silent` is not known to be false: output while silenced" % (
                        fn.name, X.callee_name(n)),
-                   proof="dominated by a branch establishing !silent")
+                   proof=why)
     chk.count("msgs_output_sites", n_sites, floor=6)
     chk.count("msgs_output_primitives", primitives, floor=4)
 
